@@ -178,13 +178,30 @@ def gen_tl(rnd, idx):
     text += "class Ag : Agent { predicate Act(real k) : Interval { duration >= 2.0; } predicate Sig() : Impulse { } }\nAg ag = new Ag();\n"
     text += "class SV : StateVariable { predicate S() { duration >= 1.0; } }\nSV sv = new SV();\n"
     text += "ReusableResource rr = new ReusableResource(5.0);\n"
+    # predicates declared inside a plain (non smart) class, in a class derived from one, in a class derived from a smart type; empty rule bodies;
+    # a fact introduced by a rule
+    text += "class Cam { predicate Rec(real q) : Interval { duration >= 1.0; } predicate Shot() : Impulse { } predicate Idle() : Interval { }\n"
+    text += "    predicate Ses() : Interval { duration >= 3.0; fact w = new Rec(q:1.0); w.start >= start + 1.0; goal sh = new Shot(); sh.at >= w.end; } }\n"
+    text += "class Cam2 : Cam { predicate Pan(real a) : Interval { } }\nCam cam = new Cam();\nCam2 cam2 = new Cam2();\n"
+    text += "class Ag2 : Ag { predicate Wave() : Interval { } predicate Blink() : Impulse { } }\nAg2 ag2 = new Ag2();\n"
+    text += "class SV2 : StateVariable { predicate E() { } }\nSV2 sv2 = new SV2();\n"
+    text += "predicate E0() : Interval { }\n"
     stmts = []
     n = rnd.randint(2, 7)
     for i in range(n):
         kind = rnd.choice(["fact", "goal"])
         c = rnd.random()
         nm = "t%d" % i
-        if c < 0.2:
+        if c < 0.45 and rnd.random() < 0.5:
+            what = rnd.choice(["cam.Rec(q:2.0)", "cam.Shot()", "cam.Idle()", "cam.Ses()", "cam2.Pan(a:1.0)", "cam2.Rec(q:3.0)", "cam2.Shot()", "ag2.Wave()", "ag2.Blink()", "ag2.Act(k:2.0)",
+                               "sv2.E()", "E0()"])
+            if "Ses" in what:
+                kind = "goal"
+            stmts.append("%s %s = new %s;" % (kind, nm, what))
+            if "sv2.E" in what:
+                stmts.append("%s.start >= %s;" % (nm, f2(i * 3)))
+                stmts.append("%s.end <= %s;" % (nm, f2(i * 3 + 2)))
+        elif c < 0.2:
             stmts.append("%s %s = new I0(x:%s);" % (kind, nm, f2(rnd.randint(0, 4))))
         elif c < 0.35:
             stmts.append("%s %s = new M0(y:%s);" % (kind, nm, f2(rnd.randint(0, 4))))
@@ -202,10 +219,10 @@ def gen_tl(rnd, idx):
             stmts.append("%s %s = new rr.Use(amount:%s, duration:%s);" % (kind, nm, f2(rnd.randint(0, 5)), f2(rnd.randint(0, 3))))
         # constraints that tempt a solver that forgot the temporal rule
         k = rnd.random()
-        if "new M0" in stmts[-1] or "Sig" in stmts[-1]:
+        if "new M0" in stmts[-1] or "Sig" in stmts[-1] or "Shot" in stmts[-1] or "Blink" in stmts[-1]:
             if k < 0.3:
                 stmts.append("%s.at >= %s;" % (nm, f2(rnd.randint(0, 6))))
-        elif "G0" not in stmts[-1]:
+        elif "G0" not in stmts[-1] and "sv2.E" not in stmts[-1]:
             if k < 0.25:
                 stmts.append("%s.start >= %s;" % (nm, f2(rnd.randint(0, 6))))
             elif k < 0.4:
@@ -272,3 +289,104 @@ def gen_rules(rnd, idx):
         stmts.append("goal rg = new R(n:%s);" % f2(rnd.randint(1, 3)))
     rnd.shuffle(stmts)
     return {"family": "rules", "id": "rules-%d" % idx, "text": text + "\n".join(stmts) + "\n", "preds": preds, "planted": True}
+
+
+def gen_sx(rnd, idx):
+    """small scheduling problems that are NOT planted: state variables and reusable resources with random windows, durations, precedences and a
+    random horizon, so that about half of them have no schedule; the structured description in 'spec' is what the z3 ground truth is built from.
+    Durations are >= 1 (closed / half-open overlap coincide) and arguments are mostly distinct (unification mostly impossible)."""
+    text = "class SV : StateVariable {\n    predicate P0(real x) { duration >= 1.0; }\n    predicate P1(real x) { duration >= 2.0; }\n}\n"
+    nsv = rnd.randint(1, 2)
+    nrr = rnd.randint(0, 2)
+    insts = []
+    for k in range(nsv):
+        insts.append({"name": "sv%d" % k, "type": "sv"})
+        text += "SV sv%d = new SV();\n" % k
+    for k in range(nrr):
+        cap = Fraction(rnd.randint(2, 6))
+        insts.append({"name": "rr%d" % k, "type": "rr", "cap": cap})
+        text += "ReusableResource rr%d = new ReusableResource(%s);\n" % (k, f2(cap))
+    n = rnd.randint(2, 5)
+    T = rnd.randint(4, 10)
+    atoms = []
+    stmts = []
+    for i in range(n):
+        typ = "rr" if nrr and rnd.random() < 0.45 else "sv"
+        cands = [j for j, x in enumerate(insts) if x["type"] == typ]
+        a = {"name": "a%d" % i, "type": typ, "kind": "fact" if rnd.random() < 0.5 else "goal"}
+        if len(cands) > 1 and rnd.random() < 0.35:
+            a["insts"] = cands
+            scope = "v%d" % i
+            stmts.append("%s %s;" % ("SV" if typ == "sv" else "ReusableResource", scope))
+        else:
+            a["insts"] = [rnd.choice(cands)]
+            scope = insts[a["insts"][0]]["name"]
+        args = []
+        if typ == "sv":
+            p = rnd.randint(0, 1)
+            a["pred"] = "P%d" % p
+            a["dmin"] = Fraction(1 + p)
+            a["arg"] = Fraction(i if rnd.random() < 0.85 else 0)
+            args.append("x:%s" % f2(a["arg"]))
+        else:
+            a["pred"] = "Use"
+            a["dmin"] = Fraction(1)
+            a["arg"] = Fraction(rnd.randint(1, 8), 2)
+            args.append("amount:%s" % f2(a["arg"]))
+        cons = []
+        lo = Fraction(rnd.randint(0, T - 1))
+        dur = a["dmin"] + rnd.choice([0, 0, 1, 2])
+        hi = lo + dur + rnd.choice([0, 1, 2, 4, 6])
+        mode = rnd.random()
+        a["start_eq"] = a["end_eq"] = a["dur_eq"] = None
+        a["lo"] = a["hi"] = None
+        a["dur_ge"] = a["dmin"]
+        if mode < 0.25:
+            a["start_eq"], a["end_eq"] = lo, lo + dur
+            args += ["start:%s" % f2(lo), "end:%s" % f2(lo + dur)]
+        elif mode < 0.45:
+            a["dur_eq"] = dur
+            a["lo"], a["hi"] = lo, hi
+            args += ["duration:%s" % f2(dur)]
+            cons += ["%s.start >= %s;" % (a["name"], f2(lo)), "%s.end <= %s;" % (a["name"], f2(hi))]
+        else:
+            a["lo"], a["hi"] = lo, hi
+            a["dur_ge"] = max(a["dmin"], dur if rnd.random() < 0.6 else Fraction(1))
+            cons += ["%s.start >= %s;" % (a["name"], f2(lo)), "%s.end <= %s;" % (a["name"], f2(hi)), "%s.duration >= %s;" % (a["name"], f2(a["dur_ge"]))]
+        stmts.append("%s %s = new %s.%s(%s);" % (a["kind"], a["name"], scope, a["pred"], ", ".join(args)))
+        stmts += cons
+        atoms.append(a)
+    prec = []
+    for _ in range(rnd.choice([0, 0, 1, 2])):
+        i, j = rnd.sample(range(n), 2)
+        prec.append((i, j))
+        stmts.append("a%d.end <= a%d.start;" % (i, j))
+    H = Fraction(rnd.randint(T + 1, T + 12))
+    stmts.append("horizon <= %s;" % f2(H))
+    text += "\n".join(stmts) + "\n"
+    return {"family": "sx", "id": "sx-%d" % idx, "text": text, "atoms": atoms, "insts": insts, "planted": False,
+            "spec": {"atoms": atoms, "insts": insts, "prec": prec, "horizon": H}}
+
+
+def gen_cyc(rnd, idx):
+    """domains in which goals can only be *justified* through a base case but could 'support each other' in a circle (being somewhere needs a move,
+    a move needs being somewhere else): an independent, cheaper choice first removes the base case, so the circular unifications are what
+    propagation suggests; the only plans open the base case.  Solvable by construction (base case reachable)."""
+    nl = rnd.randint(2, 3)
+    locs = rnd.sample([1, 2, 3, 4, 6], nl)
+    P, M, C = rnd.choice([("At", "Move", "Configure"), ("In", "Go", "Setup"), ("Has", "Fetch", "Prepare")])
+    gate = rnd.choice(["depot", "sw"])
+    closed = rnd.choice([5, 1, 7])
+    c1, c2 = rnd.choice([(10, 11), (1, 2), (3, 3), (2, 9)])
+    base_first = rnd.random() < 0.7
+    base = "{\n        l == 0.0;\n        %s == 0.0;\n    }" % gate
+    step = "{\n        goal m = new %s(to:l);\n    }" % M
+    text = "real %s;\n\n" % gate
+    text += "predicate %s(real l) {\n    %s or %s\n}\n\n" % (P, base if base_first else step, step if base_first else base)
+    text += "predicate %s(real from, real to) {\n    goal a = new %s(l:from);\n%s}\n\n" % (M, P, "    from >= 0.0;\n" if rnd.random() < 0.5 else "")
+    opts = ["{\n        %s == %d.0;\n    } [%d.0]" % (gate, closed, c1), "{\n        %s == 0.0;\n    } [%d.0]" % (gate, c2)]
+    text += "predicate %s() {\n    %s or %s\n}\n\n" % (C, opts[0], opts[1])
+    stmts = ["goal g%d = new %s(l:%d.0);" % (i, P, l) for i, l in enumerate(locs)]
+    stmts.append("goal c = new %s();" % C)
+    rnd.shuffle(stmts)
+    return {"family": "cyc", "id": "cyc-%d" % idx, "text": text + "\n".join(stmts) + "\n", "planted": True}
